@@ -39,6 +39,14 @@ REPL = PUNCT + ["+m:", "+p:", "A", "B", "U", "x", "ID", "INT", "OBJECT", "skipws
 COMMENTS = ["/*c*/", "//c"]
 
 
+def ncpu():
+    """Cores this check may use: tlc.NCPU, further capped by VT_CPUS when that is set."""
+    try:
+        return max(1, min(tlc.NCPU, int(os.environ.get("VT_CPUS", tlc.NCPU))))
+    except ValueError:
+        return tlc.NCPU
+
+
 def render(toks):
     out = []
     for t in toks:
@@ -57,7 +65,7 @@ def tlc_generate(tier, dev=""):
         return tlc.model_check("MC_MetaGrammar", cfg="MC_MetaGrammar_Emit.cfg", env=env, workers=1, timeout=3000)
 
     def inv():
-        return tlc.model_check("MC_MetaGrammar", cfg="MC_MetaGrammar.cfg", env=env, timeout=3000)
+        return tlc.model_check("MC_MetaGrammar", cfg="MC_MetaGrammar.cfg", env=env, workers=ncpu(), timeout=3000)
 
     with ThreadPoolExecutor(max_workers=2) as ex:
         fe, fi = ex.submit(emit), ex.submit(inv)
@@ -67,7 +75,8 @@ def tlc_generate(tier, dev=""):
 
 def tlc_invariants(tier, dev):
     """The invariant run alone, with one deviation clause switched on (vacuity check of the module)."""
-    return tlc.model_check("MC_MetaGrammar", cfg="MC_MetaGrammar.cfg", env=dict(BUDGETS[tier], VT_DEV=dev), timeout=3000)
+    return tlc.model_check("MC_MetaGrammar", cfg="MC_MetaGrammar.cfg", env=dict(BUDGETS[tier], VT_DEV=dev),
+                           workers=ncpu(), timeout=3000)
 
 
 def base_from(res):
@@ -81,7 +90,7 @@ def base_from(res):
 
 def tlc_direction(tier):
     return tlc.model_check("MC_MetaGrammar", cfg="MC_MetaGrammar_Dir.cfg",
-                           env=dict(BUDGETS[tier], VT_DEV=""), timeout=3000)
+                           env=dict(BUDGETS[tier], VT_DEV=""), workers=ncpu(), timeout=3000)
 
 
 # ------------------------------------------------------------------ mutations
@@ -136,14 +145,15 @@ VARIANTS = {
     "''": ['""'],
     "\"b\"": ["'b'", '"b\\"c"', '"b\'c"'],
     "'\\xzz'": ["'\\uzzzz'", "'\\N{bogus}'", '"\\xzz"', "'\\U0000zzzz'", "'a\\x4'"],
-    "/b/": ["/[a-z]+/", "/a\\/b/", "/\\d{2,3}/", "/(?i)x/", "/\\w+\\s*/", "/[^\\/]+/", "/a|b/"],
+    "/b/": ["/[a-z]+/", "/a\\/b/", "/\\d{2,3}/", "/(?i)x/", "/\\w+\\s*/", "/[^\\/]+/", "/a|b/",
+            "/ c /", "/a \\/ b/", "/a\\\\/", "/\\//", "/ /"],
     "/x*/": ["/a?/", "/(b|)/", "/\\s*/"],
     "/(/": ["/[/", "/a{2,1}/", "/\\1/", "/a**/", "/(?P<n>a)(?P<n>b)/", "/(?<=a+)b/", "/(?z)a/", "/a)/",
             "/a{99999999999999999999}/", "/\\d{4294967295}/", "/[a-z]{1,4294967296}/", "/\\p/"],
     "x": ["_x", "x1", "été"],
     "A": ["Abc_1", "Ä"],
     "1b": ["1", "007x"],
-    "INTEGER": ["IDENT", "STRINGS", "BOOLEAN", "FLOATS", "NUMBERS", "BASETYPES"],
+    "INTEGER": ["IDENT", "STRINGS", "BOOLEAN", "FLOATS", "NUMBERS", "BASETYPES", "IDx", "INTx"],
     "l": ["l_2", "x-y-"],
     "m": ["m_2", "a.b.c"],
 }
@@ -235,6 +245,53 @@ def glue_cases(pool, rng, quota):
                 items.append((toks[k], dict(kind="glue", toks=list(toks), text="".join(parts).rstrip(" "), only="C24")))
     return [v for _, v in stratified(items, rng, quota)]
 
+
+
+# ------------------------------------------------------------------ raw chunks and qualified names (C24)
+RAW_PLACEHOLDERS = {"<r1>": 0, "<r2>": 1}
+NATOMS = {"quick": 2, "thorough": 3}
+BUILTIN_WORDS = ["ID", "BOOL", "INT", "FLOAT", "STRING", "NUMBER", "BASETYPE", "STRICTFLOAT", "OBJECT"]
+
+
+def tlc_chunks(tier, dev=""):
+    """TLC enumerates the raw chunks (MetaGrammarLex) and checks the theorems about the lexical rule."""
+    return tlc.model_check("MetaGrammarLex", env=dict(VT_NATOMS=NATOMS[tier], VT_DEV=dev), workers=1, timeout=3000)
+
+
+def chunk_cases(base, chunks, rng, quota):
+    """Every sampled chunk in place of a regex token of a generated text (only texts in which no
+    slash or quote follows that token), and in the plain host `A : <chunk> ;`."""
+    hosts = [["A", ":", "<r1>", ";"]]
+    for b in base:
+        t = b["toks"]
+        for k, tok in enumerate(t):
+            if tok == "/b/" and not any(x[:1] in "'\"/" for x in t[k + 1:]):
+                hosts.append(t[:k] + ["<r1>"] + t[k + 1:])
+    items = [((c["bf"], c["af"]), c["cs"]) for c in chunks]
+    out = []
+    for j, (_, cs) in enumerate(stratified(items, rng, quota)):
+        host = hosts[0] if j % 3 == 0 else rng.choice(hosts)
+        out.append(dict(kind="chunk", toks=list(host), raws=[list(cs)], only="C24"))
+    return out
+
+
+def qualify_ops(base):
+    """Qualified-name mutations of the name tokens of generated texts: a built-in name gets a dotted
+    suffix (ID.x, INT.y.z), or a glued-dot word after it (ID .x); a rule name gets one (A.B, A.B.C)."""
+    out = []
+    for b in base:
+        t = b["toks"]
+        for k, tok in enumerate(t):
+            prev = t[k - 1] if k else "^"
+            if tok in BUILTIN_WORDS:
+                for q in ("ID.x", "INT.y.z"):
+                    out.append((f"builtin->{q} after {prev}", t[:k] + [q] + t[k + 1:]))
+                out.append((f"builtin+.x after {prev}", t[:k + 1] + [".x"] + t[k + 1:]))
+            elif tok in ("A", "B"):
+                for q in ("A.B", "A.B.C"):
+                    out.append((f"name->{q} after {prev}", t[:k] + [q] + t[k + 1:]))
+                out.append((f"name+.x after {prev}", t[:k + 1] + [".x"] + t[k + 1:]))
+    return out
 
 
 def T(s):
@@ -334,7 +391,7 @@ TARGETED = [
 ]
 
 
-def build_cases(base, rng, tier, prop=None):
+def build_cases(base, rng, tier, prop=None, chunks=()):
     """The corpus as a list of dicts(id, toks, kind[, text, kw]); duplicates removed.
     `prop` drops the cases meant for the other property only."""
     quick = tier == "quick"
@@ -343,7 +400,7 @@ def build_cases(base, rng, tier, prop=None):
     def add(kind, toks, **extra):
         if extra.get("only") and prop and extra["only"] != prop:
             return
-        key = (tuple(toks), extra.get("text"), extra.get("kw"))
+        key = (tuple(toks), extra.get("text"), extra.get("kw"), json.dumps(extra.get("raws")))
         if key in seen:
             return
         seen.add(key)
@@ -387,6 +444,13 @@ def build_cases(base, rng, tier, prop=None):
         for c in rng.sample(rest, min(len(rest), 300 if quick else 3000)):
             add("opt", c["toks"], kw=rng.choice(OPTION_SETS), only="C23",
                 **({"text": c["text"]} if c.get("text") is not None else {}))
+    # qualified names: dotted suffixes on built-in and rule names, same number per (operator, left neighbour)
+    for _, toks in stratified(qualify_ops(base), rng, 6 if quick else 200):
+        add("qual", toks)
+    # raw chunks: a regex match with tokens glued to it, lexed by the module (C24)
+    if prop != "C23" and chunks:
+        for c in chunk_cases(base, chunks, rng, 14 if quick else 400):
+            add("chunk", c["toks"], raws=c["raws"], only="C24")
     # keyword glued to the following word (C24: both parsers take keywords as prefixes)
     if prop != "C23":
         gpool = [b["toks"] for b in base] + [toks for _, toks in muts[:6000]]
@@ -397,19 +461,25 @@ def build_cases(base, rng, tier, prop=None):
 
 def oracle(cases, listed_devs):
     """MetaGrammar evaluated by TLC on every distinct token sequence of the corpus."""
+    def key(c):
+        return (tuple(c["toks"]), tuple(tuple(r) for r in c.get("raws") or ()))
     uniq = {}
     for c in cases:
-        uniq.setdefault(tuple(c["toks"]), f"t{len(uniq)}")
+        uniq.setdefault(key(c), f"t{len(uniq)}")
     work = tlc.scratch("vt-mg-")
     try:
         dp = os.path.join(work, "devs.json")
         with open(dp, "w") as f:
             json.dump(sorted(listed_devs), f)
-        res, st = tlc.oracle("MetaGrammarOracle", [dict(id=i, toks=list(t)) for t, i in uniq.items()],
-                             env={"VT_DEVS": dp})
+        res, st = tlc.oracle("MetaGrammarOracle",
+                             [dict(id=i, toks=list(t), raws=[list(r) for r in rw]) for (t, rw), i in uniq.items()],
+                             env={"VT_DEVS": dp}, shards=ncpu())
     finally:
         shutil.rmtree(work, ignore_errors=True)
-    return {c["id"]: res[uniq[tuple(c["toks"])]] for c in cases}, st
+    bad = [i for i, r in res.items() if not r["wh"]]
+    if bad:
+        raise tlc.MachineryError(f"{len(bad)} cases put a slash or quote after a raw chunk (harness error)")
+    return {c["id"]: res[uniq[key(c)]] for c in cases}, st
 
 
 # ------------------------------------------------------------------ the real code, in worker processes
@@ -547,7 +617,18 @@ def _run_chunk(args):
 
 
 def text_of(c):
-    return c["text"] if c.get("text") is not None else render(c["toks"])
+    if c.get("text") is not None:
+        return c["text"]
+    if c.get("raws"):
+        out = []
+        for t in c["toks"]:
+            k = RAW_PLACEHOLDERS.get(t)
+            if k is not None and k < len(c["raws"]):
+                out.append("".join(c["raws"][k]) + "\n")      # the chunk as written, then a line break
+            else:
+                out.append(t + ("\n" if t.startswith("//") else " "))
+        return "".join(out).rstrip(" ")
+    return render(c["toks"])
 
 
 def observe(cases, what, limit=20.0, procs=None):
@@ -555,7 +636,7 @@ def observe(cases, what, limit=20.0, procs=None):
     The per-text limit only guards against hangs: a text that hits it is run again, alone and
     with a long limit, before the timeout is reported."""
     import multiprocessing as mp
-    procs = max(1, min(procs or tlc.NCPU, tlc.NCPU))
+    procs = max(1, min(procs or ncpu(), ncpu()))
     items = [(c["id"], text_of(c), c.get("kw")) for c in cases]
     size = max(20, min(400, len(items) // (procs * 4) + 1))
     chunks = [(items[i:i + size], tuple(what), limit) for i in range(0, len(items), size)]
@@ -584,7 +665,7 @@ def observe_one(case, what):
 def shrink(case, still_bad, max_rounds=3):
     """Greedy one-token deletions while `still_bad(list of candidate cases) -> list of bool` holds."""
     cur = dict(case)
-    if cur.get("text") is not None or cur.get("kw"):
+    if cur.get("text") is not None or cur.get("kw") or cur.get("raws"):
         return cur
     for _ in range(max_rounds):
         t = cur["toks"]
